@@ -263,7 +263,8 @@ def step (s : State) : Ev → Option State
   | .xStop =>
     -- pthread_cancel + pthread_join: the server thread only dies at a cancellation point (accept / socket I/O), never while it
     -- holds the mutex; then free(server_data) and the pointer is cleared — no lock is taken.  The integrator may be anywhere.
-    if s.srvUp = true ∧ (s.spc = .accepting ∨ s.spc = .sending) then
+    -- (`holding`: the `/screenshot` handler calls printf — a cancellation point — while it holds the mutex, server.c:401-410)
+    if s.srvUp = true ∧ (s.spc = .accepting ∨ s.spc = .sending ∨ s.spc = .holding) then
       some { s with srvUp := false, spc := .accepting, owner := none, needCopy := false,
                     racy := s.racy || decide (s.ipc = .waitNC ∨ s.ipc = .wantLock ∨ s.ipc = .postLock ∨ s.ipc = .postUnlock ∨ s.ipc = .shotWait) ||
                             (decide (s.ipc = .locked ∨ s.ipc = .stepping ∨ s.ipc = .stepped) && s.ilock) }
